@@ -10,7 +10,7 @@
 (*                                                       -> MinIntType      *)
 (* One operator per Go function, one IF per Go branch, so that a TLC         *)
 (* counterexample points at a line of the code.  Numbers are the abstract   *)
-(* numerals of JV (half units, or landmarks for the sized-int analysis).    *)
+(* numerals of JV (quarters,   or landmarks for the sized-int analysis).    *)
 (* Go pointers are [on |-> FALSE] / [on |-> TRUE, v |-> numeral].            *)
 (*                                                                          *)
 (* Deviation switches (members of D) placed at the defect's site:            *)
